@@ -127,6 +127,7 @@ def Cand.name : Cand → String
 
 structure DState where
   dead : Bool := false
+  annDead : Bool := false                -- an announcement clause already failed in this history (known to persist)
   batch : Nat := 1
   spaced : Bool := false
   stack : List Blk := []                 -- best chain, tip first
@@ -252,7 +253,7 @@ def step (d : DState) (l : Line) : DState × List Verdict :=
       let vs : List Verdict :=
         diffs.map (fun f => .monitor (s!"c16/fresh_node_equal/{f}" ++ (if f == "mbal" || f == "mimm" then cause else ""))
           s!"living={(lookup l.obs f).getD "?"},fresh={(lookup l.obs ("f_" ++ f)).getD "?"}") ++
-        (if annBad || annBad2 then [.monitor "c16/fresh_node_equal/announcement" s!"living={livingA.getD "?"},fresh={(lookup l.obs "f_aidx").getD "?"}"] else []) ++
+        (if (annBad || annBad2) && !d.annDead then [.monitor "c16/fresh_node_equal/announcement" s!"living={livingA.getD "?"},fresh={(lookup l.obs "f_aidx").getD "?"}"] else []) ++
         (if idxBad then [.monitor "c17/fresh_node_equal/index_elements" "living and fresh index element sets differ"] else [])
       ({ d with dead := !vs.isEmpty, freshCmp := d.freshCmp + 1 }, vs)
     else
@@ -358,7 +359,8 @@ def step (d : DState) (l : Line) : DState × List Verdict :=
         let m13 : List Verdict := (if mkidx == 0 then [] else [.monitor "c17/element_proof_valid/index" s!"invalid={mkidx}"]) ++
           (if mkcel == 0 then [] else [.monitor "c17/element_proof_valid/contract" s!"invalid={mkcel}"])
         let m14 : List Verdict := if hostrej == 0 then [] else [.monitor "c17/host_built_txn_rejected" s!"count={hostrej}"]
-        let mons := m1 ++ m2 ++ m3 ++ m4 ++ m5 ++ m6 ++ m7 ++ m8 ++ m9 ++ m10 ++ m11 ++ m12 ++ m13 ++ m14
+        let annMons := if d.annDead then [] else m6 ++ m7
+        let mons := m1 ++ m2 ++ m3 ++ m4 ++ m5 ++ annMons ++ m8 ++ m9 ++ m10 ++ m11 ++ m12 ++ m13 ++ m14
         -- ---- correspondence: which transcribed variants explain the host
         let explains (c : Cand) : Bool := match candView c with
           | .ok (tx, ev, b, i) => sortU tx == outxS && sortP (ev.map fun e => (e.id, e.blk)) == oevS && b == mbal && i == mimm
@@ -374,7 +376,7 @@ def step (d : DState) (l : Line) : DState × List Verdict :=
                 else [.mismatch "c16/model/metrics" s!"{b}/{i}({c.name})" s!"{mbal}/{mimm}"]
               | .error f => [.mismatch "c16/model/fault" s!"{repr f}({c.name})" "ok"])
           | none => []
-        let mm2 : List Verdict := if !annAlive.isEmpty || anns.isEmpty then [] else
+        let mm2 : List Verdict := if !annAlive.isEmpty || anns.isEmpty || d.annDead then [] else
           match anns.head? with
           | some (_, r) => [.mismatch "c16/model/announcement" s!"{showK r.idx}/{r.addr.getD 0}/{r.hash.getD 0}" s!"{showK aidx}/{aaddr}/{ahash}"]
           | none => []
@@ -390,12 +392,15 @@ def step (d : DState) (l : Line) : DState × List Verdict :=
              else [.mismatch "c17/model/basis" "corrupt-or-stale" "n/a"])
         let mms := if mons.isEmpty then mm1 ++ mm2 ++ mm3 else []
         let vs := mons ++ mms
+        -- a failed announcement clause does not disturb the rest of the state: keep checking the other clauses
+        let onlyAnn := !annMons.isEmpty && vs.length == annMons.length
         let hasV (p : Cand → Bool) := alive.any p
         let d2 := { d1 with
           cands := if alive.isEmpty then cands else alive,
           anns := if annAlive.isEmpty then anns else annAlive,
           prevAidx := aidx,
-          dead := !vs.isEmpty,
+          dead := !vs.isEmpty && !onlyAnn,
+          annDead := d.annDead || !annMons.isEmpty,
           annSet := d1.annSet + (if annBlocksApplied.isEmpty then 0 else 1),
           annCleared := d1.annCleared + (if d.prevAidx.isSome && aidx.isNone then 1 else 0),
           accOk := d1.accOk + (acc.length - badAcc.length),
